@@ -3,7 +3,7 @@
 #include <stdint.h>
 #include <stddef.h>
 
-#define SIM_MAX_THREADS 8
+#define SIM_MAX_THREADS 72   /* schedule lists use one printable character per decision: '0' + thread */
 
 enum { SIM_STRAT_RANDOM = 0, SIM_STRAT_SERIAL, SIM_STRAT_RR, SIM_STRAT_PCT };
 
